@@ -84,33 +84,49 @@ Theorem C20_const_gcd_fuel : forall fuel y r, 0 <= r < y -> blen y + blen r < Z.
 Proof. exact naive_gcd_loop_fuel. Qed.
 Print Assumptions C20_const_gcd_fuel.
 
-(** token loops: every literal of the grammar is accepted with the grammar's reading ... *)
-Theorem C20_int_tokens_sound : forall signed_ ts r,
-  int_tokens_spec signed_ ts = Some r -> int_tokens_asis signed_ ts = Some r.
-Proof. exact int_tokens_spec_sound. Qed.
-Print Assumptions C20_int_tokens_sound.
+(** token loops (after the repairs F03-F05): the loops of parse_integer_with_error / parse_ratio_with_error
+    accept exactly the literal grammar and read every literal as the grammar does, for every token list *)
+Theorem C20_int_tokens_eq : forall signed_ ts, int_tokens_asis signed_ ts = int_tokens_spec signed_ ts.
+Proof. exact int_tokens_asis_eq_spec. Qed.
+Print Assumptions C20_int_tokens_eq.
 
-Theorem C20_rat_tokens_sound : forall ts r, rat_tokens_spec ts = Some r -> rat_tokens_asis ts = Some r.
-Proof. exact rat_tokens_spec_sound. Qed.
-Print Assumptions C20_rat_tokens_sound.
+Theorem C20_rat_tokens_eq : forall ts, rat_tokens_asis ts = rat_tokens_spec ts.
+Proof. exact rat_tokens_asis_eq_spec. Qed.
+Print Assumptions C20_rat_tokens_eq.
 
-Theorem C20_fbin_text_sound : forall ts s b, fbin_text_spec ts = Some (s, b) -> fbin_text_asis ts = (s, b).
-Proof. exact fbin_text_spec_sound. Qed.
-Print Assumptions C20_fbin_text_sound.
+Theorem C20_fbin_text : forall ts, fbin_text_asis ts = fbin_text_spec ts.
+Proof. exact fbin_text_asis_spec. Qed.
+Print Assumptions C20_fbin_text.
 
-(** ... and the loops accept more than the grammar (findings F03, F04, F05) *)
-Theorem C20_int_tokens_refuted :
-  exists ts, int_lax ts /\ int_tokens_spec true ts = None /\ int_tokens_asis true ts = Some (true, [53], None).
-Proof. exact int_tokens_refuted. Qed.
-Print Assumptions C20_int_tokens_refuted.
+(** every accepted token sets one more mark of the loop: at most 4 / 8 tokens *)
+Theorem C20_int_tokens_length : forall signed_ ts r, int_tokens_asis signed_ ts = Some r -> (length ts <= 4)%nat.
+Proof. exact int_tokens_asis_length. Qed.
+Print Assumptions C20_int_tokens_length.
 
-Theorem C20_rat_tokens_refuted :
-  (exists ts, rat_tokens_spec ts = None /\ rat_tokens_asis ts = Some (false, false, [49], Some (false, [50]), None)) /\
-  (exists ts, rat_tokens_spec ts = None /\ rat_tokens_asis ts = Some (false, false, [49], None, None) /\ length ts = 2%nat).
-Proof. exact rat_tokens_refuted. Qed.
-Print Assumptions C20_rat_tokens_refuted.
+Theorem C20_rat_tokens_length : forall ts r, rat_tokens_asis ts = Some r -> (length ts <= 8)%nat.
+Proof. exact rat_tokens_asis_length. Qed.
+Print Assumptions C20_rat_tokens_length.
 
-Theorem C20_fbin_double_sign_refuted :
-  exists ts, fbin_text_spec ts = None /\ fbin_text_asis ts = (Negative, [43; 49]).
-Proof. exact fbin_double_sign_refuted. Qed.
-Print Assumptions C20_fbin_double_sign_refuted.
+(** the repaired deviations (findings F03, F04, F05): the witnesses are refused *)
+Theorem C20_int_repeated_sign_rejected :
+  int_tokens_asis true [mk_tok TPunct [45]; mk_tok TPunct [45]; mk_tok TLit [53]] = None /\
+  int_tokens_asis true [mk_tok TPunct [45]; mk_tok TPunct [43]; mk_tok TLit [53]] = None /\
+  int_tokens_asis false [mk_tok TLit [53]; mk_tok TIdent t_base; mk_tok TIdent t_base; mk_tok TLit [49; 48]] = None.
+Proof. exact int_repeated_sign_rejected. Qed.
+Print Assumptions C20_int_repeated_sign_rejected.
+
+Theorem C20_rat_outside_grammar_rejected :
+  rat_tokens_asis [mk_tok TLit [49]; mk_tok TLit [50]] = None /\
+  rat_tokens_asis [mk_tok TLit [49]; mk_tok TPunct [47]] = None /\
+  rat_tokens_asis [mk_tok TPunct [47]; mk_tok TLit [50]] = None /\
+  rat_tokens_asis [mk_tok TPunct [45]; mk_tok TPunct [45]; mk_tok TLit [49]; mk_tok TPunct [47]; mk_tok TLit [50]] = None /\
+  rat_tokens_asis [mk_tok TPunct [126]; mk_tok TPunct [126]; mk_tok TLit [49]] = None /\
+  rat_tokens_asis [mk_tok TLit [49]; mk_tok TPunct [45]; mk_tok TPunct [47]; mk_tok TLit [50]] = None.
+Proof. exact rat_outside_grammar_rejected. Qed.
+Print Assumptions C20_rat_outside_grammar_rejected.
+
+Theorem C20_fbin_double_sign_rejected :
+  fbin_text_asis [mk_tok TPunct [45]; mk_tok TPunct [43]; mk_tok TLit [49]] = None /\
+  fbin_text_asis [mk_tok TPunct [45]; mk_tok TIdent [95; 48; 120; 49]] = Some (Negative, [48; 120; 49]).
+Proof. exact fbin_double_sign_rejected. Qed.
+Print Assumptions C20_fbin_double_sign_rejected.
